@@ -451,7 +451,7 @@ func runFsSeq(p *FsPlan, system string, keepLog bool) fsSeqResult {
 var namePool = []string{"a", "b", "a.tmp", "c"}
 var sizePool = []int{0, 1, 10, 100, 4095, 4096, 4097, 10000, 70000}
 
-func genFsSeq(rng *simrt.Rand, maxOps int) (dirs []string, ops []FsOp) {
+func genFsSeq(rng *simrt.Rand, maxOps int, acBias bool) (dirs []string, ops []FsOp) {
 	nd := 1 + rng.Intn(3)
 	for i := 0; i < nd; i++ {
 		dirs = append(dirs, fmt.Sprintf("d%d", i))
@@ -500,7 +500,13 @@ func genFsSeq(rng *simrt.Rand, maxOps int) (dirs []string, ops []FsOp) {
 		name := namePool[rng.Intn(len(namePool))]
 		ex := existing()
 		var op FsOp
-		switch rng.Intn(16) {
+		sel := rng.Intn(16)
+		if acBias {
+			// AtomicCreate-centred histories (C13): creates, deletes and links
+			// around frequent AtomicCreates, few reads
+			sel = []int{13, 13, 13, 14, 14, 11, 11, 0, 2, 5, 12, 6, 8, 13, 11, 0}[sel]
+		}
+		switch sel {
 		case 0, 1:
 			op = FsOp{K: "create", D: d, N: name, H: nextH}
 			if m.Create(nextH, d, name) {
@@ -650,7 +656,7 @@ func (c12) Expand(json.RawMessage) []json.RawMessage { return nil }
 
 func (c12) Gen(rng *simrt.Rand, tier string, run int) interface{} {
 	p := FsPlan{Batch: "seq"}
-	p.Dirs, p.Ops = genFsSeq(rng, 40)
+	p.Dirs, p.Ops = genFsSeq(rng, 40, false)
 	p.Real = run%10 == 9
 	if rng.Chance(1, 2) {
 		p.DirentsPerCall = 1 + rng.Intn(3)
